@@ -90,14 +90,10 @@ Definition rfc_ra_eqb (a b : rfc_ra) : bool :=
               (r_pref64 a) (r_pref64 b)
   && lb_eqb (r_captive a) (r_captive b).
 
-(* ---- known-finding classes ---------------------------------------------
-   class 1: a search domain with an empty label or a label longer than 63
-   octets (not expressible in RFC 1035 name syntax) is written to the wire as
-   it stands.  *)
-Definition effective_domains (t : top) (i : intf) : list (list N) :=
-  match cv_unwrap_or (i_dnssl i) (t_dns_search t) with Some v => v | None => [] end.
-Definition in_class1 (t : top) (i : intf) : bool :=
-  negb (forallb domain_ok (effective_domains t i)).
+(* ---- known-finding classes: none left (class 1, search domains that are not
+   RFC 1035 names, was repaired: F46) *)
+Definition has_bad_domain (t : top) (i : intf) : bool :=
+  negb (forallb domain_ok (match cv_unwrap_or (i_dnssl i) (t_dns_search t) with Some v => v | None => [] end)).
 
 (* the loader refuses what cannot be advertised (kind 2) *)
 Definition loader_rejects (i : intf) : bool :=
@@ -105,7 +101,8 @@ Definition loader_rejects (i : intf) : bool :=
   || match i_pref64 i with Some p => negb (nat64_len_ok (n_len p)) | None => false end.
 
 (* tags: which options the advertisement carries, as a bit set
-   1 prefixes, 2 rdnss, 4 dnssl, 8 pref64, 16 captive, 32 some value was clamped, 64 loaded from YAML;
+   1 prefixes, 2 rdnss, 4 dnssl, 8 pref64, 16 captive, 32 some value was clamped, 64 loaded from YAML,
+   128 a search domain that is not a domain name was left out;
    200 the loader rejected the configuration *)
 Definition over (max v : N) : bool := max <? v.
 Definition clamped (t : top) (i : intf) (e : env) : bool :=
@@ -119,15 +116,14 @@ Definition tag_of (kind : N) (t : top) (i : intf) (e : env) (x : rfc_ra) : N :=
   (if is_nil (r_prefixes x) then 0 else 1) + (if is_nil (r_rdnss x) then 0 else 2)
   + (if is_nil (r_dnssl x) then 0 else 4) + (if is_nil (r_pref64 x) then 0 else 8)
   + (if is_nil (r_captive x) then 0 else 16) + (if clamped t i e then 32 else 0)
-  + (if kind =? 2 then 64 else 0).
+  + (if kind =? 2 then 64 else 0) + (if has_bad_domain t i then 128 else 0).
 
 Definition model_out (a : radv) : list N :=
   match serialise a with Ok b => 0 :: put_bytes b | _ => [2] end.
 
 Definition check_cfg (kind : N) (t : top) (i : intf) (e : env) (impl : list N) : list N :=
   let model := model_out (build t i e) in
-  let known := in_class1 t i in
-  let viol (p : N) := if known then v_known 1 else v_viol p in
+  let viol (p : N) := v_viol p in
   match impl with
   | 0 :: r =>
     match tok_bytes r with
